@@ -24,6 +24,8 @@ func main() {
 	switch os.Args[1] {
 	case "c24":
 		c24Rows()
+	case "c31":
+		c31Edges()
 	default:
 		vio.Fatal("unknown command %s", os.Args[1])
 	}
